@@ -129,7 +129,7 @@ func c09Check(cs []tcue, d int64, styled bool) string {
 	}
 	for _, x := range exp {
 		c := cs[x.orig]
-		if x.clamped || c.E <= 0 || c.S < 0 {
+		if x.clamped || c.E <= 0 || c.S <= 0 {
 			continue
 		}
 		k, ok := pos[ptrs[x.orig]]
@@ -147,6 +147,7 @@ func c09Random(r *fw.Rand) ([]tcue, int64) {
 	n := r.Intn(41)
 	unit := fw.Pick(r, []int64{1, 1000, 1000000, 1000000000})
 	span := fw.Pick(r, []int64{10, 1000, 86400})
+	neg := r.P(1, 4)
 	cs := make([]tcue, n)
 	var maxEnd int64
 	for i := range cs {
@@ -157,6 +158,9 @@ func c09Random(r *fw.Rand) ([]tcue, int64) {
 		e := s + r.I64n(span/2+1)*unit
 		if r.P(1, 5) {
 			e = s
+		}
+		if neg {
+			s, e = s-span*unit/3, e-span*unit/3 // some cues start (and end) before zero, e.g. after a linear correction
 		}
 		cs[i] = tcue{s, e, fmt.Sprintf("t%d", i)}
 		if e > maxEnd {
@@ -196,6 +200,9 @@ func c09CLI(c *fw.Ctx) fw.Outcome {
 	d := (r.I64n(2*maxEnd/1e6+2000) - maxEnd/1e6 - 1) * 1e6
 	if d == 0 {
 		d = 1e6
+	}
+	if r.Bool() {
+		fw.Shuffle(r, cs) // the cues of a file need not be ordered by start: sync keeps the file's order
 	}
 	in := filepath.Join(c.TmpDir(), "in.srt")
 	out := filepath.Join(c.TmpDir(), "out.srt")
